@@ -209,7 +209,7 @@ func traceLine(work, line string, lineNo int, r *rng, waterEvery int) {
 			res := s1 - expect
 			scale := math.Abs(day.s0) + math.Abs(day.fluss0) + math.Abs(day.sumQ) + math.Abs(day.sumTP)
 			emit(jobj{"k": "day", "line": lineNo, "zeit": zeit, "steps": day.steps, "wdt": hx(day.wdt), "s0": hx(day.s0), "s1": hx(s1),
-				"fluss0": hx(day.fluss0), "tp": hx(day.sumTP), "q": hx(day.sumQ), "qd": hx(day.sumQD), "res": res, "excluded": day.excluded})
+				"grw": g.GRW, "wurz": g.WURZ, "fluss0": hx(day.fluss0), "tp": hx(day.sumTP), "q": hx(day.sumQ), "qd": hx(day.sumQD), "res": res, "excluded": day.excluded})
 			// C06: bounds and finiteness at the end of the day
 			maxCaps := 0.0
 			for _, c := range g.CAPS {
